@@ -2,4 +2,4 @@ from ._muxprops import make, COMMON_RULE
 
 SPEC = make("C10", "Properties.C10", ['C10_reset_never_answered', 'C10_unknown_flow_reset', 'C10_connect_rejected', 'C10_bind_disabled_reset', 'C10_overrun_closes_offender', 'C10_frame_rule_slots', 'C10_invalid_message_ends'],
             [("pair", "inject", 0.6), ("pair", "inject-collide-end", 0.4)],
-            COMMON_RULE + "Emphasis for this property: generator mode(s) inject.", "DESIGN.md §4 C10")
+            COMMON_RULE + "Emphasis for this property: generator mode(s) inject.", "DESIGN.md §5 C10")
